@@ -92,6 +92,9 @@ pub mod keys;
 pub mod schemes;
 /// Utils module
 pub mod utils;
+#[cfg(zkryptium_verif)]
+/// Verification hooks (only with `--cfg zkryptium_verif`)
+pub mod verif_hooks;
 
 #[cfg(feature = "bbsplus")]
 /// BBS+ signature scheme module
